@@ -43,6 +43,18 @@ theorem seek_correct (t : Tree K E) (h : WF none none t) (key : K) (n : Nat) (hn
     Spec.SeekOk t.flatten key r.1 (Cursor.drain n r.2).1 :=
   seek_spec t h key n hn
 
+/-- `seek` re-positions a cursor whatever it did before (entries already yielded, exhausted): the result
+depends on the tree and the key only, so `seek_correct` holds for every cursor on the tree -/
+theorem seek_ignores_cursor_history (c : Cursor K E) (key : K) :
+    Cursor.seek c key = Cursor.seek { root := c.root } key := rfl
+
+theorem seek_correct_any_cursor (c : Cursor K E) (h : WF none none c.root) (key : K) (n : Nat)
+    (hn : c.root.flatten.length < n) :
+    let r := Cursor.seek c key
+    Spec.SeekOk c.root.flatten key r.1 (Cursor.drain n r.2).1 := by
+  rw [seek_ignores_cursor_history]
+  exact seek_spec c.root h key n hn
+
 /-- a range scan yields exactly the entries within its bounds, for all nine kinds of bound pairs
 (inclusive / exclusive / unbounded on either side), present or absent, reversed or out of range -/
 theorem range_correct (t : Tree K E) (h : WF none none t) (lo hi : Spec.Bound K) (n : Nat)
